@@ -58,7 +58,7 @@ UNITS = [
                 "old(self.execution.defines_and_exports)",
                 "len(self.execution.defines_and_exports) >= len(old(self.execution.defines_and_exports))"]),
 
-  unit(F, 'SubqueryTranslator.TranslateTableAttachedToFile', props=['C17', 'C14'],
+  unit(F, 'SubqueryTranslator.TranslateTableAttachedToFile', props=['C17', 'C14', 'C08'],
        params=['table', 'ground', 'external_vocabulary', 'edge_needed'],
        types={'table': 'str', 'ground': 'rec[Ground]', 'external_vocabulary': 'Vocab',
               'edge_needed': 'bool'},
